@@ -195,3 +195,34 @@ func inLoop(i ssa.Instruction) bool {
 	}
 	return false
 }
+
+// underLoop reports whether instruction i is in a loop body or in a block
+// only reachable from inside one (e.g. an early return inside the loop).
+func underLoop(i ssa.Instruction) bool {
+	b := i.Block()
+	for h := b; h != nil; h = h.Idom() {
+		isHeader := false
+		for _, p := range h.Preds {
+			if h.Dominates(p) {
+				isHeader = true
+			}
+		}
+		if !isHeader {
+			continue
+		}
+		if h == b {
+			return true
+		}
+		// blocks dominated by one of the header's exit successors are after the loop
+		after := false
+		for _, s := range h.Succs {
+			if !inLoopBody(h, s) && (s == b || s.Dominates(b)) {
+				after = true
+			}
+		}
+		if !after {
+			return true
+		}
+	}
+	return false
+}
